@@ -275,11 +275,11 @@ Definition restore_defective (c : cfg) (p : pool) (k : N) (b : block) (if_absent
     add_block p k b addrs'.
 
 (* restoreLocked with validation (fixes/C15_restore_validate.patch).  None = error returned, state unchanged.
-   A plain RestoreMapping of a block the subscriber already holds still appends a second copy (legacy behaviour
+   The shape of the block is checked before the idempotent early return of RestoreMappingIfAbsent (which compares
+   address and start only): otherwise a record with a wrong end would be reported as restored and then indexed by
+   the component.  A plain RestoreMapping of a block the subscriber already holds still appends a second copy (legacy behaviour
    pinned by TestRestoreMapping_NotIdempotent_DoubleAppends). *)
 Definition restore_repaired (c : cfg) (p : pool) (k : N) (b : block) (if_absent : bool) : option pool :=
-  if if_absent && holds_block (blocks_of p k) b then Some p
-  else
   match findi (fun a => a_ip a =? b_ip b) (p_addrs p) with
   | None => None
   | Some i =>
@@ -289,6 +289,7 @@ Definition restore_repaired (c : cfg) (p : pool) (k : N) (b : block) (if_absent 
           if a_excl a then None
           else if negb (start_ok c (a_total a) (b_start b)) then None
           else if negb (b_end b =? b_start b + c_bs c - 1) then None
+          else if if_absent && holds_block (blocks_of p k) b then Some p
           else if negb (holds_block (blocks_of p k) b) && test_bit (a_bits a) (idx_of c (b_start b)) then None
           else if limit_reached c p k then None
           else if c_paired c && match blocks_of p k with b0 :: _ => negb (b_ip b0 =? b_ip b) | [] => false end
